@@ -158,6 +158,7 @@ type oracleC19 struct {
 	expObs   Obs
 	haveExp  bool
 	shFailed bool
+	modelNaN bool
 }
 
 func (o *oracleC19) setWorld(sc *Scenario, w *World) {
@@ -198,6 +199,28 @@ func (o *oracleC19) before(c *stepCtx) {
 		return
 	}
 	o.haveExp = true
+	// independent notion of "would produce a NaN": the operand-class model of C04
+	// (IEEE 754), so that a bare operation that wrongly fails to raise ErrNaN does
+	// not hide a missing latch
+	o.modelNaN = false
+	cl := func(i int) cls { return clsOf(c.pre[op.A[i]]) }
+	switch sop.Name {
+	case "Add":
+		o.modelNaN = sumClass(cl(0), cl(1), o.mode).invalid
+	case "Sub":
+		y := cl(1)
+		y.neg = !y.neg
+		o.modelNaN = sumClass(cl(0), y, o.mode).invalid
+	case "Mul":
+		o.modelNaN = mulClass(cl(0), cl(1)).invalid
+	case "Quo":
+		o.modelNaN = quoClass(cl(0), cl(1)).invalid
+	case "FMA":
+		o.modelNaN = fmaClass(cl(0), cl(1), cl(2), o.mode).invalid
+	case "Sqrt":
+		x := cl(0)
+		o.modelNaN = x.neg && x.form != 0
+	}
 	o.expNaN = r.Panicked && r.IsNaN
 	o.expMsg = r.PanicMsg
 	o.shFailed = r.Panicked && !r.IsNaN
@@ -331,6 +354,9 @@ func (o *oracleC19) after(c *stepCtx) *ViolationRec {
 		return fail("ctx-return", "operation did not return its receiver")
 	}
 	post := c.post[op.Z]
+	if o.modelNaN != o.expNaN {
+		return fail("nan-not-latched", "IEEE-754 operand classes say this operation is invalid=%v, but the operation raised ErrNaN=%v: the context cannot have recorded the right state", o.modelNaN, o.expNaN)
+	}
 	if o.expNaN {
 		o.err = o.expMsg
 		o.cnt["nan_latched"]++
